@@ -35,7 +35,7 @@ from octave_mcp.core.emitter import emit
 from octave_mcp.core.gbnf_compiler import GBNFCompiler
 from octave_mcp.core.hydrator import resolve_hermetic_standard
 from octave_mcp.core.lexer import FENCE_PATTERN, LexerError, tokenize
-from octave_mcp.core.parser import ParserError, parse, parse_with_warnings
+from octave_mcp.core.parser import ParserError, _strip_yaml_frontmatter, parse, parse_with_warnings
 from octave_mcp.core.repair import repair
 from octave_mcp.core.repair_log import LiteralZoneRepairLog
 from octave_mcp.core.schema_extractor import SchemaDefinition
@@ -1330,7 +1330,9 @@ class WriteTool(BaseTool):
             else:
                 # Strict tokenization + strict parse
                 try:
-                    _, tokenize_repairs = tokenize(parse_input)
+                    # Issue #91: parse() strips YAML frontmatter (padding it with newlines, so positions are kept)
+                    # before lexing; lex the same text here, or frontmatter with YAML-only characters is refused.
+                    _, tokenize_repairs = tokenize(_strip_yaml_frontmatter(parse_input)[0])
                 except Exception as e:
                     return self._error_envelope(
                         target_path,
